@@ -203,6 +203,7 @@ func init() {
 				{Harness: "zzverif/zzh.ZZC07Rereport", Desc: "report-time filter (IMM) and detection-time filter with once-per-file re-reporting (TONL01, PKGO01 move to the next unsuppressed use of 3), trailing and stand-alone markers, 5x4x4x4 marker spellings", Bounds: map[string]interface{}{"skeleton": "c07SrcRD + c07SrcRU", "holes": 4}},
 				{Harness: "zzverif/zzh.ZZC07Header", Desc: "file-level markers that are not the package clause's own doc: detached by a blank line + package doc, followed by a //go:build constraint, middle line of a detached header group; 10 spellings; query position = any byte offset x 7 codes: covers exactly the whole file", Bounds: map[string]interface{}{"header_shapes": 3, "spellings": 10}},
 				{Harness: "zzverif/zzh.ZZC07FuncLine", Desc: "a marker trailing the 'func' line of a multi-line function (category, ALL, specific codes) covers that line only: TONL01/02/03 in the body and after it stay", Bounds: map[string]interface{}{"spellings": 5}},
+				{Harness: "zzverif/zzh.ZZC07AfterBlockComment", Desc: "a marker appended to a line that already ends in one or two general /* */ comments (one comment group of two or three comments), on a var spec and on statements: it covers its own line only; annotation over 3 spellings, marker over 4", Bounds: map[string]interface{}{"sites": 3, "annotation_spellings": 3, "marker_spellings": 4}},
 			},
 			Outside:     []string{"more than two markers in one file at a time (placement harness)", "block comments /* @ignore */", "markers inside excluded files (C14)"},
 			Assumptions: []string{"extents of declarations/statements/lines are computed by the harness from landmarks in the skeleton source, not from the code under test"},
@@ -261,6 +262,7 @@ func init() {
 		Prop{
 			ID: "C17",
 			Runs: []Run{
+				{Harness: "zzverif/zzh.ZZC07AfterBlockComment", Desc: "appending the marker to a diagnostic line that already ends in a general comment removes exactly that line's diagnostic (same run as under C07)", Bounds: map[string]interface{}{"sites": 3, "annotation_spellings": 3, "marker_spellings": 4}},
 				{Harness: "reporting.ZZC17Report", Desc: "the single reporter for an arbitrary violation (16 documented codes + unknown, any 4-byte message, any position), one marker (8 tokens, any range) and one global token (5): Report is called iff the violation's OWN code is not suppressed at its OWN position, at that position, with a message starting error: [that code]", Bounds: map[string]interface{}{"codes": 17, "marker_tokens": 8, "global_tokens": 5, "range": "[1,2^31)"}},
 				{Harness: "zzverif/zzh.ZZC17WellFormed", Desc: "all-codes program, one analyzer at a time, with readable sources: [CODE] prefix with a documented code of the analyzer's category, no second code, located in the analysed package's file on the offending line, excerpt shows that line, help link = category page (frozen table). Concrete program: this harness is executed by the interpreter and natively, no symbolic input", Bounds: map[string]interface{}{"program": "allSrcD + allSrcU", "codes": 13}},
 				{Harness: "zzverif/zzh.ZZC17Inline3", Tier: "thorough", Desc: "inline markers on any three lines at a time", Bounds: map[string]interface{}{"markers": "<= 3 of 15"}},
@@ -338,6 +340,7 @@ func init() {
 				{Harness: "zzverif/zzh.ZZC08AllCheckers", GlobalWriteMonitor: true, Setup: mapOrders, Desc: "all checkers on the all-codes program with EVERY iteration order of every native map of <=3 entries explored as nondeterminism: the diagnostics (position, code) are the same under every order; shared-state monitor on", Bounds: map[string]interface{}{"map_orders": "all permutations of maps with <= 3 entries (larger maps: one order)"}},
 				{Harness: "zzverif/zzh.ZZC11Messages", GlobalWriteMonitor: true, Setup: mapOrders, Desc: "TEXT of PKGO01/PKGO02 for allow-lists with repeated entries over two annotation lines, under every iteration order of every native map with <= 3 entries: the allowed packages are listed in written order", Bounds: map[string]interface{}{"spellings": "3 x 2 x 2"}},
 				{Harness: "zzverif/zzh.ZZC11Commute", GlobalWriteMonitor: true, Desc: "two package actions with look-alike inputs (same-named packages and interfaces at different import paths) run in either order in one process: each package's diagnostics are those of analysing it alone (catches process-wide caches with colliding keys)", Bounds: map[string]interface{}{"orders": 2}},
+				{Harness: "zzverif/zzh.ZZC11FileOrder", Desc: "the two files of a package handed to the analyzers in either order (go/packages parses them concurrently, so Pass.Files need not follow the FileSet): one file ends with the constructor, the other begins with a package-level initialiser that writes a field; same IMM01 verdicts in both orders", Bounds: map[string]interface{}{"files": 2, "orders": 2, "annotation_spellings": 2}},
 				{Harness: "zzverif/zzh.ZZC01Basic", GlobalWriteMonitor: true, Desc: "shared-state monitor over reading and checking a package with @immutable structs whose fields carry doc comments (@mutable), a type group, every write form: no store to package-level state outside sync.Once / a held lock (field-annotation reading has its own use of the shared keyword matcher)", Bounds: map[string]interface{}{"skeleton": "c01SrcD"}},
 				{Harness: "zzverif/zzh.ZZC04Cross", GlobalWriteMonitor: true, Setup: mapOrders, Tier: "thorough", Desc: "packageonly index and allow-lists under all map iteration orders", Bounds: map[string]interface{}{}},
 			},
